@@ -108,7 +108,7 @@ Print Assumptions C01_seen_monotone.
 
 (* the oracle lemma for schedule cases. Full statement (not proved, see "gaps"): *)
 Definition C01_oracle_sound_full_statement : Prop :=
-  forall c, sched_valid c -> c01_check c = true -> c01_oracle c = None \/ c01_oracle c = Some 1.
+  forall c, sched_valid c -> sched_check c = true -> sched_c01_oracle c = None \/ sched_c01_oracle c = Some 1.
 (* proved part: whenever the model reproduces the observation step by step, the observed final dump of every
    key is the image (replay) of a chain of applied commits over the observed initial dump, each link
    satisfying link_ok (names its predecessor, strictly increasing, kind-specific condition) *)
